@@ -26,6 +26,7 @@ class World:
         self.ps = ps
         self.prime = prime
         self.seen_objs = {}
+        self.open_cms = {}
         self.t = ProcTable(btime=B0, ncpu=ncpu, self_pid=2)
         self.t.spawn(1, 1, ppid=0, comm=b"init")
         self.t.spawn(2, 2, ppid=1, comm=b"harness")
@@ -59,6 +60,12 @@ class World:
         return self
 
     def __exit__(self, *a):
+        for cm in list(self.open_cms.values()):
+            try:
+                cm.__exit__(None, None, None)
+            except Exception:  # noqa: BLE001
+                pass
+        self.open_cms.clear()
         # leave module-level caches as a fresh program would find them
         self.t.btime = B0
         try:
@@ -73,7 +80,7 @@ class World:
         return p.inc if p is not None else None
 
     def alive(self, h):
-        return self.cur_inc(h.pid) == h.inc
+        return h.inc is not None and self.cur_inc(h.pid) == h.inc
 
     def _call(self, fn):
         ps = self.ps
@@ -131,6 +138,43 @@ class World:
             else:
                 rec["res"] = res
             rec["model_exists"] = inc is not None
+        elif kind == "newp":
+            # a psutil.Popen object for a child whose pid is `pid` (the subprocess.Popen underneath is a stand-in that is
+            # never waited for, so its returncode stays None - as when the child is reaped behind Popen's back)
+            pid = op[1]
+            inc = self.cur_inc(pid)
+
+            class _FakeSub:
+                def __init__(self):
+                    self.pid = pid
+                    self.returncode = None
+                    self.stdin = self.stdout = self.stderr = None
+                    self.args = ["simulated"]
+
+                def poll(self):
+                    return None
+            real_sub = ps.subprocess
+            ps.subprocess = vkernel.ModProxy(real_sub, {"Popen": lambda *a, **k: _FakeSub()})
+            try:
+                res = self._call(lambda: ps.Popen(["simulated"]))
+            finally:
+                ps.subprocess = real_sub
+            if res[0] == "ok":
+                self.handles.append(Handle(res[1], pid, inc, self.tick))
+                rec["handle"] = len(self.handles) - 1
+                rec["res"] = ("ok", None)
+            else:
+                rec["res"] = res
+        elif kind == "osenter":
+            h = self.handles[op[1]]
+            if op[1] not in self.open_cms:
+                cm = h.obj.oneshot()
+                rec["res"] = self._call(cm.__enter__)
+                self.open_cms[op[1]] = cm
+        elif kind == "osexit":
+            cm = self.open_cms.pop(op[1], None)
+            if cm is not None:
+                rec["res"] = self._call(lambda: cm.__exit__(None, None, None))
         elif kind == "isrun":
             h = self.handles[op[1]]
             rec["res"] = self._call(h.obj.is_running)
